@@ -75,8 +75,10 @@ func (c *counter) Inc(v int64) {
 
 func (c *counter) value() int64 {
 	curr := atomic.LoadInt64(&c.curr)
+	verifYield("counter.value:loaded-curr")
 
 	prev := atomic.LoadInt64(&c.prev)
+	verifYield("counter.value:loaded-prev")
 	if prev == curr {
 		return 0
 	}
@@ -118,6 +120,7 @@ func newGauge(cachedGauge CachedGauge) *gauge {
 
 func (g *gauge) Update(v float64) {
 	atomic.StoreUint64(&g.curr, math.Float64bits(v))
+	verifYield("gauge.Update:stored-value")
 	atomic.StoreUint64(&g.updated, 1)
 }
 
@@ -127,12 +130,14 @@ func (g *gauge) value() float64 {
 
 func (g *gauge) report(name string, tags map[string]string, r StatsReporter) {
 	if atomic.SwapUint64(&g.updated, 0) == 1 {
+		verifYield("gauge.report:swapped")
 		r.ReportGauge(name, tags, g.value())
 	}
 }
 
 func (g *gauge) cachedReport() {
 	if atomic.SwapUint64(&g.updated, 0) == 1 {
+		verifYield("gauge.report:swapped")
 		g.cachedGauge.ReportGauge(g.value())
 	}
 }
@@ -193,6 +198,7 @@ func (t *timer) RecordStopwatch(stopwatchStart time.Time) {
 }
 
 func (t *timer) snapshot() []time.Duration {
+	verifRLock(&t.unreported.RWMutex, "timer.snapshot:rlock")
 	t.unreported.RLock()
 	snap := make([]time.Duration, len(t.unreported.values))
 	copy(snap, t.unreported.values)
@@ -224,6 +230,7 @@ func (r *timerNoReporterSink) ReportTimer(
 	tags map[string]string,
 	interval time.Duration,
 ) {
+	verifLock(&r.timer.unreported.RWMutex, "timer.sink:lock")
 	r.timer.unreported.Lock()
 	r.timer.unreported.values = append(r.timer.unreported.values, interval)
 	r.timer.unreported.Unlock()
@@ -320,6 +327,7 @@ func newHistogram(
 
 func (h *histogram) report(name string, tags map[string]string, r StatsReporter) {
 	for i := range h.buckets {
+		verifYield("histogram.report:bucket")
 		samples := h.samples[i].counter.value()
 		if samples == 0 {
 			continue
@@ -350,6 +358,7 @@ func (h *histogram) report(name string, tags map[string]string, r StatsReporter)
 
 func (h *histogram) cachedReport() {
 	for i := range h.buckets {
+		verifYield("histogram.report:bucket")
 		samples := h.samples[i].counter.value()
 		if samples == 0 {
 			continue
@@ -492,10 +501,13 @@ func (c *bucketCache) Get(
 ) bucketStorage {
 	id := getBucketsIdentity(buckets)
 
+	verifRLock(&c.mtx, "bucketCache.Get:rlock")
 	c.mtx.RLock()
 	storage, ok := c.cache[id]
 	if !ok {
 		c.mtx.RUnlock()
+		verifYield("bucketCache.Get:miss-unlocked")
+		verifLock(&c.mtx, "bucketCache.Get:lock")
 		c.mtx.Lock()
 		storage = newBucketStorage(htype, buckets)
 		c.cache[id] = storage
